@@ -119,9 +119,24 @@ impl Response for Arbitrary<'_> {
     }
 }
 
+/// Writes a string as IEEE 488.2 string response data: enclosed in double
+/// quotes, with every embedded double quote doubled.
+async fn write_quoted(f: &mut impl Write, value: &str) -> Result<(), Error> {
+    f.write_char('"').await?;
+    let mut rest = value;
+    while let Some(position) = rest.as_bytes().iter().position(|b| *b == b'"') {
+        // Everything up to and including the quote, then the quote a second time.
+        f.write_str(&rest[..=position]).await?;
+        f.write_char('"').await?;
+        rest = &rest[position + 1..];
+    }
+    f.write_str(rest).await?;
+    f.write_char('"').await
+}
+
 impl Response for &str {
     async fn write_response(&self, f: &mut impl Write) -> Result<(), Error> {
-        write!(f, "\"{self}\"").await
+        write_quoted(f, self).await
     }
 }
 
@@ -225,7 +240,7 @@ impl Response for f64 {
 
 impl<const N: usize> Response for heapless::String<N> {
     async fn write_response(&self, f: &mut impl Write) -> Result<(), Error> {
-        write!(f, "\"{}\"", self.as_str()).await
+        write_quoted(f, self.as_str()).await
     }
 }
 
@@ -244,7 +259,7 @@ impl<const N: usize, T: Response> Response for heapless::Vec<T, N> {
 #[cfg(feature = "std")]
 impl Response for std::string::String {
     async fn write_response(&self, f: &mut impl Write) -> Result<(), Error> {
-        write!(f, "\"{}\"", self.as_str()).await
+        write_quoted(f, self.as_str()).await
     }
 }
 
